@@ -66,7 +66,7 @@ NET_CORE = [
 ]
 IP4_CORE = ["'1.2.3.4'", "0", "2**32-1", "'255.255.255.255'"]
 STRINGLIST_CORE = ["[]", "['a','\\xe9']", "['a']", "['', 'b', '\\udc80']"]
-DICTLIST_CORE = ["[]", "[{'k':1},{'z':'v'}]", "[{'a': None}]", "[{'a': 1, 'b': [2, {'c': 3, 'd': 4}]}]", "[{'b': [2, {'d': 4, 'c': 3}], 'a': 1}]"]
+DICTLIST_CORE = ["[]", "[{'k':1},{'z':'v'}]", "[{'a': None}]", "[{'a': 1, 'b': [2, {'c': 3, 'd': 4}]}]", "[{'b': [2, {'d': 4, 'c': 3}], 'a': 1}]", "[{'a': 1, 2: 'b', None: 3}]", "[{None: 3, 2: 'b', 'a': 1}]"]
 DYNAMIC_CORE = ["b'by'", "'st'", "True", "7", "2**70", "dt(2020,1,1,tz=UTC)", "['a','b']", "('t',)", "posix_path('/d')",
                 "windows_path('C:\\\\d')", "1.5 if False else 'x'"]
 
